@@ -4280,8 +4280,10 @@ void SoPlexBase<R>::_untransformUnbounded(SolRational& sol, bool unbounded)
       _basisStatusCols.reSize(numOrigCols);
       _basisStatusRows.reSize(numOrigRows);
    }
-   else if(boolParam(SoPlexBase<R>::TESTDUALINF) && tau < _rationalFeastol)
+   else if(boolParam(SoPlexBase<R>::TESTDUALINF) && sol._isDualFeasible && tau < _rationalFeastol)
    {
+      // (sol._isDualFeasible is tested first: after a failed or stopped solve the solution has been invalidated and
+      // sol._primal need not have an entry for tau)
       const Rational& alpha = sol._dual[numOrigRows];
 
       assert(sol._isDualFeasible);
@@ -4305,7 +4307,7 @@ void SoPlexBase<R>::_untransformUnbounded(SolRational& sol, bool unbounded)
       sol.invalidate();
       _hasBasis = false;
       _basisStatusCols.reSize(numOrigCols);
-      _basisStatusCols.reSize(numOrigRows);
+      _basisStatusRows.reSize(numOrigRows);
    }
 
    // recover objective function
